@@ -13,6 +13,7 @@
    duplicate-free other element list). *)
 From FCA Require Import Base.ListSet Spec.PosetSpec Model.Poset Model.PosetExt
      Lemmas.C09Base Lemmas.C09Query Lemmas.C09Add Lemmas.C09Del Lemmas.C09InitCd Lemmas.C09 Lemmas.C09Ext.
+From FCA Require Import Model.PosetLattice Lemmas.C11.
 
 Section Statements.
   Variable E : Type.
@@ -131,7 +132,37 @@ Section Statements.
     Sound E leq [] s ->
     raw_sound E leq (els s) (c_leq s) (c_desc s) (c_anc s) (c_ch s) (c_par s) = true.
   Proof. exact (raw_sound_of_Sound E leq). Qed.
+
+  (* the semilattice classes are poset objects too (Model/PosetLattice.v: POSet state + cached
+     top / bottom index): every call on them, the refused ones included, preserves their
+     invariant and reports what the cache-free meaning reports — tops, bottoms, top / bottom
+     included — along histories of any length (proofs: Lemmas/C11.v) *)
+  Theorem C09_semilattice_step_sound : forall sl o,
+    SLInv E leq sl -> sl_valid E sl o ->
+    SLInv E leq (fst (sl_step E leq eqb sl o)) /\
+    snd (sl_step E leq eqb sl o) =
+      snd (sl_spec_step E leq eqb (kind sl) (els (ps sl)) (use_cache (ps sl)) o) /\
+    els (ps (fst (sl_step E leq eqb sl o))) =
+      fst (sl_spec_step E leq eqb (kind sl) (els (ps sl)) (use_cache (ps sl)) o) /\
+    kind (fst (sl_step E leq eqb sl o)) = kind sl /\
+    use_cache (ps (fst (sl_step E leq eqb sl o))) = use_cache (ps sl).
+  Proof. exact (sl_step_ok E leq eqb PO). Qed.
+
+  Theorem C09_semilattice_reachable_sound : forall ops sl,
+    SLInv E leq sl ->
+    sl_valid_history E leq eqb (kind sl) (els (ps sl)) (use_cache (ps sl)) ops ->
+    SLInv E leq (fst (sl_run E leq eqb sl ops)) /\
+    snd (sl_run E leq eqb sl ops) =
+      snd (sl_spec_run E leq eqb (kind sl) (els (ps sl)) (use_cache (ps sl)) ops) /\
+    els (ps (fst (sl_run E leq eqb sl ops))) =
+      fst (sl_spec_run E leq eqb (kind sl) (els (ps sl)) (use_cache (ps sl)) ops) /\
+    kind (fst (sl_run E leq eqb sl ops)) = kind sl /\
+    use_cache (ps (fst (sl_run E leq eqb sl ops))) = use_cache (ps sl).
+  Proof. exact (reachable_SL E leq eqb PO). Qed.
 End Statements.
+
+Print Assumptions C09_semilattice_step_sound.
+Print Assumptions C09_semilattice_reachable_sound.
 
 Print Assumptions C09_xstep_sound.
 Print Assumptions C09_eq_other_order_symmetric.
